@@ -243,17 +243,20 @@ def from_simulation(bdir, num, depth, limit):
 # ------------------------------------------------------------------------------------------------ check
 
 def model_checking(bdir, tier):
-    cfg = "SparseMatrix.cfg" if tier == "quick" else "SparseMatrix_thorough.cfg"
-    mc = vlib.run_tlc(os.path.join(vlib.SPEC, "SparseMatrix.tla"), os.path.join(vlib.SPEC, cfg), os.path.join(bdir, "mc"),
-                      workers=vlib.NCPU, xmx="6g", timeout=2400)
-    if mc.violated or "Model checking completed. No error" not in mc.out:
-        raise vlib.Infra("SparseMatrix: the design-level model violates one of its own invariants:\n" + mc.out[-3000:])
+    cfgs = ["SparseMatrix.cfg"] if tier == "quick" else ["SparseMatrix_thorough.cfg", "SparseMatrix_thorough3x3.cfg"]
+    runs = []
+    for cfg in cfgs:
+        mc = vlib.run_tlc(os.path.join(vlib.SPEC, "SparseMatrix.tla"), os.path.join(vlib.SPEC, cfg), os.path.join(bdir, "mc_" + cfg[:-4]),
+                          workers=vlib.NCPU, xmx="6g", timeout=2400)
+        if mc.violated or "Model checking completed. No error" not in mc.out:
+            raise vlib.Infra("SparseMatrix (%s): the design-level model violates one of its own invariants:\n%s" % (cfg, mc.out[-3000:]))
+        runs.append((cfg, mc))
     neg = vlib.run_tlc(os.path.join(vlib.SPEC, "SparseMatrix.tla"), os.path.join(vlib.SPEC, "SparseMatrix_keepfree.cfg"),
                        os.path.join(bdir, "mcneg"), workers=2, xmx="1g", timeout=600)
     if "Invariant NoDangling is violated" not in neg.out:
         raise vlib.Infra("SparseMatrix: the variant 'clear keeps the free list' does not violate NoDangling "
                          "(the invariant would be vacuous):\n" + neg.out[-2000:])
-    return mc, neg
+    return runs, neg
 
 
 def make_execs(bdir, tier, rng):
@@ -278,7 +281,9 @@ def run(pid, tier):
     bdir = vlib.scratch(pid)
     verdict = vlib.Verdict(pid)
     try:
-        mc, neg = model_checking(bdir, tier)
+        mcs, neg = model_checking(bdir, tier)
+        mc_distinct = sum(m.distinct for _, m in mcs)
+        mc_states = sum(m.states for _, m in mcs)
         t1 = time.time()
         drv = mxcommon.build(bdir)
         execs, alpha, simstates = make_execs(bdir, tier, rng)
@@ -299,8 +304,8 @@ def run(pid, tier):
             ex = next(e for ff, e in execs if ff == f)
             samples.append("%s: %s" % (f, " ; ".join(x if len(x) < 90 else x[:87] + "..." for x in ex[:14])))
         cov = {
-            "states": mc.distinct + res["distinct"],
-            "transitions": mc.states + res["states"] + simstates,
+            "states": mc_distinct + res["distinct"],
+            "transitions": mc_states + res["states"] + simstates,
             "traces_validated_against_impl": res["execs"],
             "samples": samples,
             "evaluations": res["ops"],
@@ -309,8 +314,8 @@ def run(pid, tier):
                     "position, forward and backward row and column traversals, return value) was compared by TLC with the "
                     "set model; executions are distinct as command sequences",
             "exhaustive": False,
-            "model_checking": {"distinct_states": mc.distinct, "states_generated": mc.states,
-                               "config": "SparseMatrix.cfg" if tier == "quick" else "SparseMatrix_thorough.cfg",
+            "model_checking": {"runs": [{"config": c, "distinct_states": m.distinct, "states_generated": m.states} for c, m in mcs],
+                               "block_size_in_model": 2,
                                "negative_control_keepfree_violates_NoDangling": True},
             "exhaustive_short_sequences": {"alphabet": alpha, "max_length": 3 if tier == "quick" else 4, "executions": fam.get("exhaustive", 0)},
             "executions_by_family": fam,
